@@ -50,9 +50,14 @@ for d in sorted(glob.glob(os.path.join(HERE, "..", "seeded_silent", "*"))):
     name = os.path.basename(d)
     tgt = m.get("property", name[:3])
     first = os.path.join(HERE, "results", "K-%s.json" % name)
+    if not os.path.exists(first):
+        first = os.path.join(HERE, "results", "K6-%s.json" % name)
     flagged = sorted(json.load(open(first))["flagged"]) if os.path.exists(first) else None
     final = None
-    for pref in ("K3-", "K2-", "K-"):
+    rt = m.get("recheck_target_only")
+    if rt:
+        final = not rt.get("fired") and rt.get("exit") == 0
+    for pref in (() if rt else ("K3-", "K2-", "K-", "K6-")):
         fp = os.path.join(HERE, "results", pref + name + ".json")
         if os.path.exists(fp):
             r = json.load(open(fp))
